@@ -23,8 +23,10 @@ Modelled code (`/repo/src/qutip_qip`):
     `gsp`: a recursive list algorithm on (matrix, index-list) blocks.  Python's `list(set(a).union(set(b)))`
     is the **order oracle** parameter `ord` (its iteration order is unspecified by the language).  The
     repaired code (fixes/C01-1.patch) is the instance `ordSorted`.
-* `circuit/circuit.py` `QubitCircuit._get_gate_unitary` — `getGateUnitary` (lookup logic for user gates;
-  the user gate's matrix is opaque).
+* `circuit/circuit.py` `QubitCircuit._get_gate_unitary` — `getGateUnitary` (lookup logic for user gates);
+  section (f): `resolveGate` — gate object → matrix step (`get_all_qubits`, GLOBALPHASE name test, user table
+  with opaque user functions, library); section (g): `propagatorsM` — `propagators(expand, ignore_measurement)`
+  on circuits containing measurements.
 
 Matrices are lazy (`FMat`: dimension + entry function) and are tabulated (`force`) after every
 multiplication, so that 9–12 qubit compact products can be sampled entrywise.
@@ -433,7 +435,12 @@ def getGateUnitary (userGates : List (String × UserKind)) (name : String) (cont
 /-! ## (f) From the circuit's gate objects to matrix steps: `get_all_qubits`, the GLOBALPHASE name test,
 `_get_gate_unitary` with the user's objects -/
 
-/-- what the evolution reads of a gate object; `A` is the (opaque) type of `arg_value` -/
+/-- what the evolution reads of a gate object.  `name` is the object's `.name` attribute — the key of the
+user-table lookup; for an object built through a gate class it is the class name (`H(0).name = "H"`,
+`CY(0, 1).name = "_OneControlledGate"`), not necessarily the library name of its matrix.  `A` is the
+(opaque) type of `arg_value` together with whatever else of the object its own `get_compact_qobj` reads
+(class, `target_gate`, `control_value`): the library matrix is a function of the object, never of an
+earlier gate of the run (no history). -/
 structure GateReq (A : Type) where
   name : String
   targets : List Nat
